@@ -145,8 +145,15 @@ class Apps(object):
             raise ValueError(outer.message)
         self.local = 'x'
         self.message = 'x'
-        routes = [('/err', raiser), ('/boom', boom), ('/ok', lambda: Response('ok'))]
+        def boomp(request, rest):
+            raise ValueError(outer.message)
+        routes = [('/err', raiser), ('/boom', boom), ('/ok', lambda: Response('ok')), ('/boomp/<rest*>', boomp)]
         self.app = {'default': Application(routes), 'debug': Application(routes, debug=True)}
+        # a route added with rebind_render_error=False and no render_error of its own
+        from clastic import Route
+        nr = Application([('/ok', lambda: Response('ok'))])
+        nr.add(Route('/err', raiser), rebind_render_error=False)
+        self.app['norebind'] = nr
 
 
 def fmt_of(res):
@@ -268,6 +275,11 @@ def run_case(acc, A, handler, kind, spec, accept, pkey, carrier, neutral_cache):
                 h['X-Payload'] = pl.encode('utf-8', 'surrogatepass').decode('latin-1').replace('\x0b', ' ').replace('\x01', ' ')
             if carrier == 'cookie':
                 h['Cookie'] = 'c=' + urllib.parse.quote(pl.encode('utf-8', 'surrogatepass'))
+            if carrier == 'path':
+                # the uncaught exception happens on a route that matched through a multi-segment binding
+                return wsgi.call(app, '/boomp/' + pl.replace('/', '|'), 'GET', headers=h), {}
+            if carrier == 'host':
+                h['Host'] = 'h' + ''.join(c for c in pl if c not in ' \x01\x0b') + '.example'
             return wsgi.call(app, '/boom', 'GET', query=q, headers=h), {}
         if kind == 'notfound':
             return wsgi.call(app, '/nf/' + pl.replace('/', '|'), 'GET', headers=hdrs), {}
@@ -342,6 +354,14 @@ def items(tier):
         for pkey in sorted(PAYLOADS):
             if pkey not in SURROGATE:
                 out.append((handler, 'notfound', None, ('path', pkey)))
+                out.append((handler, 'boom', None, ('path', pkey)))
+                if pkey != 'nonascii':
+                    out.append((handler, 'boom', None, ('host', pkey)))
+    for cname in ('Forbidden', 'NotFound', 'InternalServerError'):
+        for how in ('raise', 'return'):
+            out.append(('norebind', 'class', (cname, None, how), None))
+            for pkey in ('tag', 'plain', 'script'):
+                out.append(('norebind', 'class', (cname, 'detail', how), pkey))
     # a few classes under the debug handler as well
     for cname in ('Forbidden', 'NotFound', 'InternalServerError'):
         for field in ('detail', 'error_type'):
